@@ -23,6 +23,7 @@ RULE = ("(i) planted structures with payload and terms (bonds / angles / dihedra
         "match unless the replacement itself contains A). Real files: uio66 (linker, Zr), uio66-triclinic, hkust-1 "
         "(benzene, Cu). Non-trivial = at least one occurrence replaced and, for (i), the structure has terms or a copy "
         "crosses a boundary; distinct by hash.")
+RULE += (" Since rounds 9-10: Pattern classes include mirror-pair (two candidate numberings of which one cannot be rotated into place).")
 ASSUMPTIONS = ["cases whose reference groups are grey, overlap or differ from the planted copies are skipped and counted",
                "the term-set relation is asserted only when every occurrence has a unique feasible ordering"]
 
